@@ -1079,7 +1079,7 @@ package hashgraph
 //@ ghost func (s *InmemStore) coupled() bool { return s.cacheSize >= 2 && s.cacheSize < 4611686018427387904 && s.roundCache != nil && s.blockCache != nil && s.frameCache != nil && s.eventCache != nil && s.roundCache != s.blockCache && s.roundCache != s.frameCache && s.roundCache != s.eventCache && s.blockCache != s.frameCache && s.blockCache != s.eventCache && s.frameCache != s.eventCache && G_lastBlock(s) == s.lastBlock && s.roundsCoupled() && s.blocksCoupled() && s.framesCoupled() && s.eventsCoupled() && s.participantEventsCache != nil && s.participantEventsCache.wf() && s.psCoupled() && s.roots != nil }
 // psCoupled: the peer-set view is what the cache's lookup returns: for a round below the first recorded one the first
 // set, otherwise the set recorded at the greatest round not above it; every recorded set is well-formed.
-//@ ghost func (s *InmemStore) psCoupled() bool { return s.peerSetCache != nil && s.peerSetCache.wf() && s.peerSetCache.repertoireByPubKey != nil && s.peerSetCache.repertoireByID != nil && s.peerSetCache.firstRounds != nil && G_psetOK(s) == (len(s.peerSetCache.rounds) > 0) && (len(s.peerSetCache.rounds) > 0 ==> G_psetFloor(s) == s.peerSetCache.rounds[0]) && (forall i int :: 0 <= i && i < len(s.peerSetCache.rounds) ==> s.peerSetCache.peerSets[s.peerSetCache.rounds[i]].WF()) && s.psView() }
+//@ ghost func (s *InmemStore) psCoupled() bool { return s.peerSetCache != nil && s.peerSetCache.wf() && s.peerSetCache.repertoireByPubKey != nil && s.peerSetCache.repertoireByID != nil && s.peerSetCache.firstRounds != nil && G_psetOK(s) == (len(s.peerSetCache.rounds) > 0) && (len(s.peerSetCache.rounds) > 0 ==> G_psetFloor(s) == s.peerSetCache.rounds[0]) && (forall i int :: 0 <= i && i < len(s.peerSetCache.rounds) ==> s.peerSetCache.peerSets[s.peerSetCache.rounds[i]].WF()) && s.psView() && (forall k uint32 :: __in(k, s.peerSetCache.repertoireByID) ==> s.peerSetCache.repertoireByID[k] != nil) }
 //@ ghost func (s *InmemStore) psView() bool { return (forall r int :: len(s.peerSetCache.rounds) > 0 && r < s.peerSetCache.rounds[0] ==> G_pset(s)[r] == s.peerSetCache.peerSets[s.peerSetCache.rounds[0]]) && (forall r int, k int :: 0 <= k && k < len(s.peerSetCache.rounds) && s.peerSetCache.rounds[k] <= r && (k == len(s.peerSetCache.rounds)-1 || r < s.peerSetCache.rounds[k+1]) ==> G_pset(s)[r] == s.peerSetCache.peerSets[s.peerSetCache.rounds[k]]) }
 //@ ghost func (s *InmemStore) eventsCoupled() bool { return forall k string :: __in(interface{}(k), common.G_m(s.eventCache)) ==> __in(k, G_events(s)) && common.G_m(s.eventCache)[interface{}(k)] == interface{}(G_events(s)[k]) && G_events(s)[k] != nil && __dyn(common.G_m(s.eventCache)[interface{}(k)], "Event") }
 //@ ghost func (s *InmemStore) roundsCoupled() bool { return forall r int :: __in(interface{}(r), common.G_m(s.roundCache)) ==> __in(r, G_rounds(s)) && common.G_m(s.roundCache)[interface{}(r)] == interface{}(G_rounds(s)[r]) && G_rounds(s)[r] != nil && G_rounds(s)[r].CreatedEvents != nil && __dyn(common.G_m(s.roundCache)[interface{}(r)], "RoundInfo") }
@@ -1507,7 +1507,7 @@ package hashgraph
 // coupled() - the precondition of every store method above - is established, not only preserved.
 //@ func NewPeerSetCache() *PeerSetCache
 //@   modifies nothing
-//@   ensures[fresh] ret0 != nil && __fresh(ret0) && ret0.wf() && len(ret0.rounds) == 0 && ret0.repertoireByPubKey != nil && ret0.repertoireByID != nil && ret0.firstRounds != nil
+//@   ensures[fresh] ret0 != nil && __fresh(ret0) && ret0.wf() && len(ret0.rounds) == 0 && ret0.repertoireByPubKey != nil && ret0.repertoireByID != nil && ret0.firstRounds != nil && (forall k uint32 :: !__in(k, ret0.repertoireByID))
 
 //@ func NewParticipantEventsCache(size int) *ParticipantEventsCache
 //@   requires size >= 2 && size < 4611686018427387904
@@ -1618,3 +1618,9 @@ package hashgraph
 //@   call Set assert[record] string(__argT[[]byte](0)) == string(repertoireKey(peer.PubKeyString())) && __samebytes(__argT[[]byte](1), __lastretT[[]byte]("Marshal", 0))
 //@   ensures[written] ret0 == nil ==> __in(string(repertoireKey(peer.PubKeyString())), G_raw(s.db))
 //@   ensures[fail]    ret0 != nil ==> __eq(G_raw(s.db), old(G_raw(s.db)))
+
+//@ func (s *InmemStore) RepertoireByID() map[uint32]*peers.Peer
+//@   implements Store.RepertoireByID
+//@   safety on
+//@   requires s != nil && s.coupled()
+//@   modifies nothing
